@@ -14,6 +14,7 @@ pub mod c05;
 pub mod c13;
 pub mod c18;
 pub mod c10;
+pub mod c10_record;
 pub mod c19;
 pub mod c19_more;
 pub mod c01;
